@@ -42,6 +42,7 @@ type Evidence struct {
 	Budgets            map[string]int64
 	SelftestPairs      int
 	SelftestMismatches int
+	CrossJobs          int
 }
 
 type groupEv struct {
@@ -154,7 +155,7 @@ func (ev *Evidence) write(wall float64, violations int) {
 	assumptions := []string{
 		"go/ssa semantics as implemented by gosym (validated by selftest against the native build and by native replay of every counterexample)",
 		"stubbed externals behave per their documented contract: " + fmt.Sprint(keysOf(ev.Stubs)),
-		"SMT solver verdicts (z3 4.8.12; thorough tier cross-checks with z3 5.1.0 where stated)",
+		"SMT solver verdicts (z3 4.8.12; a sample of jobs per group is re-explored with z3 5.1.0, and cvc5 1.0 in the thorough tier, and must give the same feasible paths)",
 	}
 	if spec != nil {
 		assumptions = append(assumptions, spec.Assumptions...)
@@ -173,6 +174,7 @@ func (ev *Evidence) write(wall float64, violations int) {
 			"traces_validated_against_impl": ev.Replays + ev.SelftestPairs,
 			"selftest":                      map[string]int{"pairs_compared_native_vs_gosym": ev.SelftestPairs, "mismatches": ev.SelftestMismatches},
 			"native_replays":                ev.Replays,
+			"solver_cross_check":            map[string]interface{}{"jobs_re_explored_with_other_solvers": ev.CrossJobs, "solvers": "z3 5.1.0 (quick, thorough), cvc5 1.0 (thorough)", "rule": "per group the largest completed jobs under a path limit are explored again; paths per outcome must be identical, any difference makes the run inconclusive"},
 			"samples":                       samples,
 			"exhaustive":                    len(ev.Inconclusive) == 0 && len(ev.Incomplete) == 0,
 			"rule":                          "states = feasible paths (input equivalence classes) of the harness over the real SSA of /repo, every symbolic branch decided by an SMT query; transitions = symbolic branch decisions taken; each job is one concrete program shape, inside a job nothing is sampled",
